@@ -379,9 +379,12 @@ def run_check(modname, tier, seed, only_legs=None):
     for task, st in zip(tasks, results):
         per_leg[task[1]].merge(st)
 
+    # replay tier: every stored failing case of this property (found on the pinned tree, since fixed) must now pass
+    regress = replay_stored(mod, per_leg)
     herr = [s for s in per_leg.values() if s.harness_error]
     known_lines, known_info = probe_known(mod)
     failures = [(name, s.failure) for name, s in per_leg.items() if s.failure]
+    failures += [(name, fl) for name, fl, _ in regress["failed"]]
     viol_paths = []
     if failures:
         name, fl = failures[0]
@@ -392,6 +395,7 @@ def run_check(modname, tier, seed, only_legs=None):
         viol_paths.append(write_replay(prop, name, fl, seed, tier))
     wall = time.time() - t0
     ev = build_evidence(mod, per_leg, tier, seed, wall, len(failures), known_info)
+    ev["coverage"]["stored_replays_rerun"] = regress["n"]
     evdir = os.environ.get("VERIF_EVIDENCE_DIR") or os.path.join(VERIF, "evidence")
     os.makedirs(evdir, exist_ok=True)
     if not only_legs:
@@ -414,6 +418,32 @@ def run_check(modname, tier, seed, only_legs=None):
             sys.stderr.write("HARNESS ERROR in leg %s:\n%s\n" % (s.leg, s.harness_error))
         return 2
     return 0
+
+
+def replay_stored(mod, per_leg):
+    """Re-run replays/<PROP>-*.json (regression inputs) through the plain check functions."""
+    import glob
+
+    out = {"n": 0, "failed": []}
+    known_witness = {json.dumps(e["witness"]["case"], sort_keys=True) for e in load_known()
+                     if e.get("status") == "known" and e.get("property") == mod.PROPERTY}
+    legs = {l.name: l for l in mod.LEGS}
+    for path in sorted(glob.glob(os.path.join(VERIF, "replays", mod.PROPERTY + "-*.json"))):
+        try:
+            with open(path) as f:
+                body = json.load(f)
+        except Exception:
+            continue
+        if body.get("leg") not in legs or body["leg"] not in per_leg:
+            continue
+        if json.dumps(body["case"], sort_keys=True) in known_witness:
+            continue  # the witness of a listed known finding is reported by probe_known, not here
+        st = Stats(body["leg"])
+        problem = run_one(legs[body["leg"]], body["case"], st, [])
+        out["n"] += 1
+        if problem is not None:
+            out["failed"].append((body["leg"], {"case": body["case"], "problem": "stored regression input %s fails again: %s" % (os.path.basename(path), problem)}, path))
+    return out
 
 
 def probe_known(mod):
